@@ -361,7 +361,20 @@ class RedisStore(MutableMapping):
         """
         Handles key invalidation messages sent by the Redis server.
         """
-        keys = message["data"]  # This will contain an array of invalidated keys.        
+        keys = message["data"]  # This will contain an array of invalidated keys.
+        if keys is None:
+            # Sent when the whole database is flushed: nothing cached is valid.
+            self.cache.clear()
+            return
+        if not isinstance(keys, (list, tuple)):
+            """
+            Not an invalidation message from the server, but something that
+            was published to the channel, in particular the "exit" message
+            that the stop() method of any other RedisStore instance using
+            the same server publishes to release its own listener thread.
+            """
+            return
+
         for k in keys:
             # Keys are passed as an array of binary strings, with prefixes.
             key = self._remove_prefix(k.decode("utf-8"))
